@@ -116,7 +116,11 @@ func dumpLeaves(v reflect.Value, pfx string, out *[]leaf) {
 			// IPK alternatives: rendered as one list leaf
 			l := leaf{Path: pfx, Kind: 'l'}
 			for i := 0; i < v.Len(); i++ {
-				l.L = append(l.L, fmt.Sprintf("%+v", v.Index(i).Interface()))
+				if a, ok := v.Index(i).Interface().(nfpm.IPKAlternative); ok {
+					l.L = append(l.L, fmt.Sprintf("%d:%s:%s", a.Priority, a.LinkName, a.Target))
+				} else {
+					l.L = append(l.L, fmt.Sprintf("%+v", v.Index(i).Interface()))
+				}
 			}
 			*out = append(*out, l)
 		}
